@@ -525,7 +525,13 @@ func runBounded(repo, replayRoot, spec, tier, tmp string) []BoundedResult {
 	}
 	if len(res) == 0 {
 		br := BoundedResult{Name: test, Pkg: pkgDir, Ran: false, Output: trunc(string(out), 2000), Secs: round3(time.Since(t0).Seconds())}
-		if strings.Contains(string(out), "panic: test timed out") || ctx.Err() != nil {
+		if i := strings.Index(string(out), "VERIF-BOUNDED-PANIC: "); i >= 0 {
+			// the real code panicked on an enumerated input
+			br.Ran = true
+			br.Failures = 1
+			line, _, _ := strings.Cut(string(out)[i+len("VERIF-BOUNDED-PANIC: "):], "\n")
+			br.First = line
+		} else if strings.Contains(string(out), "panic: test timed out") || ctx.Err() != nil {
 			// the real code did not finish the enumeration within the limit: reported, not silently dropped
 			br.Ran = true
 			br.Failures = 1
